@@ -1,7 +1,7 @@
 (** C04 - canonical form: equal contents always produce the identical root.
     Statements only; proofs are in Inv.v / Hist.v / Build.v. *)
 From Coq Require Import List NArith ZArith Bool.
-From Mast Require Import Reload WorldInv Prim Key Tree KeyOrder Codec Store Diff World Erase Build Spec Canon Level Inv Hist Merkle MerkleHist.
+From Mast Require Import Reload WorldInv Prim Key Tree KeyOrder Codec Store Diff World Erase Build Spec Canon Level Inv Hist Merkle MerkleHist HeightFun.
 Import ListNotations.
 
 Section GENERIC.
@@ -105,6 +105,22 @@ Example C04_example_identical_root :
   fst (last (run (wrun empty_world ex_route2) [OMakeRoot 1 9]%N) (ObOk, [])).
 Proof. split; [apply condsb_ok; vm_compute; reflexivity|]. split; [apply condsb_ok; vm_compute; reflexivity|]. vm_compute. split; reflexivity. Qed.
 
+(** the height is a function of the entries and the branch factor: [aheight] computes it (the largest
+    h with a key of layer >= h and bf^h < size, 0 if none), and every canonical tree - hence every tree
+    of every reachable world, where Height() is among the observed operations of
+    C01_refines_sorted_map - has exactly that height *)
+Theorem C04_height_is_a_function_of_contents : forall (K V : Type) (cmp : K -> K -> comparison) (layer : K -> nat),
+  (forall k, layer k < max_layer_fuel) ->
+  forall bf (m : mast K V) l, canon K V cmp layer bf m l -> m_height _ _ m = aheight K V layer bf l.
+Proof. exact canon_height. Qed.
+Example C04_example_height :
+  let ops := (ex_route2 ++ [OHeight 1; OSize 1])%list in
+  conds empty_world ([], []) ops /\
+  map (fun x => pobs (fst x)) (run empty_world ops) = arun2 ([], []) ops /\
+  nth 8%nat (arun2 ([], []) ops) BOk = BNum 1%N.
+Proof. split; [apply condsb_ok; vm_compute; reflexivity|]. vm_compute. split; reflexivity. Qed.
+
+
 (** non-vacuity and the repaired defects: the shrink threshold of the pinned code (D8: size < bf^h
     instead of size <= bf^h) violates the height rule on a concrete history *)
 Local Open Scope N_scope.
@@ -128,3 +144,4 @@ Print Assumptions C04_name_depends_on_contents_only.
 Print Assumptions C04_identical_root.
 Print Assumptions C04_reachable_stores_content_addressed.
 Print Assumptions C04_identical_root_in_histories.
+Print Assumptions C04_height_is_a_function_of_contents.
